@@ -111,7 +111,7 @@ def e2(test, rule, quick, thorough, **kw):
 PROPS["C05"] = e2("TestC05", "cases drawn by rapid: setup tree, 1-5 watches on dirs/files, reader parked by the plug (80%), 0-15 pending fs ops incl. a sequence that invalidates "
                   "a kernel watch before its notification is handled (70%), consumer behaviour in {none, events, errors, both, stop after j}, capacity in {default,0,1,8,4096}, "
                   "then 1-6 control calls and 1-3 concurrent Close calls, each under a watchdog with goroutine-dump proof. non-trivial = at the first control call the reader is "
-                  "parked or FIONREAD>0; distinct = the full case text", 150, 600)
+                  "parked or FIONREAD>0; in 20% of cases the final Close calls race 3-10 goroutines looping over Add/WatchList/Remove and one more Close follows; distinct = the full case text", 300, 600)
 MANIFEST_TEXT["C05"] = dict(engine="E2", level_text="Exploration of (pending state x consumer behaviour x control programme): every Add/Remove/WatchList/Close must return; a violation needs goroutine-dump proof of a call blocked inside fsnotify. The reader-parked class of schedules is reached deterministically; other interleavings are sampled.",
                             note="trusted: runtime.Stack goroutine states; the plug protocol; watchdog 4 s (quick) / 10 s (thorough) for calls that take microseconds",
                             technique="property-based testing (rapid) over generated pending states and call programmes, watchdog-with-proof oracle")
